@@ -15,6 +15,9 @@ theorem nt_destWrite {lhs : CExpr} {v : ILPure} {eff : ILEffect} (hf : HybFree l
     simp only [tmpsOfEffect, hf, hv, Bool.false_eq_true, ↓reduceIte, List.append_nil]
   · cases h; simp only [tmpsOfEffect, hv]
   · cases h
+    simp only [HybFree, Bool.not_eq_eq_eq_not, Bool.not_true] at hf
+    simp only [tmpsOfEffect, hf, hv, Bool.false_eq_true, ↓reduceIte, List.append_nil]
+  · cases h
 
 theorem nt_compileAssign {env : CEnv} {lhs : CExpr} {op : String} {ce : CE} {eff : ILEffect} {src : CE}
     (hf : HybFree lhs = true) (hce : tmpsOfPure ce.il = [])
